@@ -346,6 +346,6 @@ def run_translator():
             p = subprocess.run(["go", "build", "-o", binpath, "."], cwd=src, env=GOENV, capture_output=True, text=True)
             if p.returncode != 0:
                 raise BuildError("translator build: " + p.stdout + p.stderr)
-        p = subprocess.run([binpath, "-repo", REPO, "-out", os.path.join(COQ, "gen")], capture_output=True, text=True)
+        p = subprocess.run([binpath, "-repo", REPO, "-out", os.path.join(COQ, "gen"), "-work", WORK], capture_output=True, text=True)
         if p.returncode != 0:
             raise BuildError("translator: " + p.stdout + p.stderr)
